@@ -31,6 +31,14 @@ type Case struct {
 	Seg     []int     `json:"seg,omitempty"`
 }
 
+// Seg0 is the first drawn segment size (0 if none).
+func (c Case) Seg0() int {
+	if len(c.Seg) > 0 {
+		return c.Seg[0]
+	}
+	return 0
+}
+
 type stats struct {
 	comments, escQuote, markerInString, eofLine bool
 }
@@ -96,6 +104,34 @@ func runCase(c Case) (st stats, err error) {
 	if string(pass) != plain {
 		return st, fmt.Errorf("comment-free text is altered: %q became %q", clip(plain), clip(string(pass)))
 	}
+	// (4) several readers alive at once, read in small pieces, one of them read again after its end:
+	// each document still comes out as when read alone
+	r1 := oj.NewJsonPlusReader(seg(decorated))
+	if o1, e := io.ReadAll(r1); e != nil || !bytes.Equal(o1, out) {
+		return st, fmt.Errorf("a second reader over the same decorated text gives %q (err %v), the first gave %q", clip(string(o1)), e, clip(string(out)))
+	}
+	r2 := oj.NewJsonPlusReader(seg(decorated))
+	var o2 []byte
+	small := make([]byte, 3)
+	n2, e2 := r2.Read(small)
+	o2 = append(o2, small[:n2]...)
+	if n, _ := r1.Read(make([]byte, 64)); n != 0 {
+		return st, fmt.Errorf("a reader that had reported the end of its document returned %d more bytes", n)
+	}
+	r3 := oj.NewJsonPlusReader(seg(plain))
+	if o3, e := io.ReadAll(r3); e != nil || string(o3) != plain {
+		return st, fmt.Errorf("comment-free text read while another reader is half-way is altered: %q became %q (err %v)", clip(plain), clip(string(o3)), e)
+	}
+	for i := 0; e2 == nil; i++ {
+		n2, e2 = r2.Read(small[:1+i%3])
+		o2 = append(o2, small[:n2]...)
+		if i > 4*len(decorated)+64 {
+			return st, fmt.Errorf("reader does not reach the end of a %d-byte document after %d reads", len(decorated), i)
+		}
+	}
+	if e2 != io.EOF || !bytes.Equal(o2, out) {
+		return st, fmt.Errorf("decorated text read in small pieces while other readers were used gives %q (err %v), read alone it gives %q", clip(string(o2)), e2, clip(string(out)))
+	}
 	return st, nil
 }
 
@@ -134,10 +170,19 @@ func genVal(t *rapid.T, depth int) jsonref.V {
 	case 2:
 		return jsonref.V{K: "num", Raw: rapid.SampledFrom([]string{"0", "-0", "1", "-1", "3.25", "1e3", "1E-2", "123456789", "0.5", "-12.75e+2"}).Draw(t, "num")}
 	case 3, 4, 5:
+		if rapid.IntRange(0, 300).Draw(t, "longstr") == 0 {
+			return jsonref.V{K: "str", Str: strings.Repeat(rapid.SampledFrom([]string{"a", "ab/", `\"`, "*/ /*"}).Draw(t, "lsu"), rapid.SampledFrom([]int{1400, 1400, 22000}).Draw(t, "lsn"))}
+		}
 		return jsonref.V{K: "str", Str: genStr(t)}
 	case 6, 7:
 		v := jsonref.V{K: "arr"}
 		n := rapid.IntRange(0, 4).Draw(t, "an")
+		if depth == 0 && rapid.IntRange(0, 15).Draw(t, "longarr") == 0 {
+			// a long run of tokens without quotes or comment markers
+			for i, m := 0, rapid.SampledFrom([]int{700, 1400, 3000, 12000}).Draw(t, "lan"); i < m; i++ {
+				v.Elem = append(v.Elem, jsonref.V{K: "num", Raw: fmt.Sprint(100000 + i)})
+			}
+		}
 		for i := 0; i < n; i++ {
 			v.Elem = append(v.Elem, genVal(t, depth+1))
 		}
@@ -151,6 +196,12 @@ func genVal(t *rapid.T, depth int) jsonref.V {
 		}
 		return v
 	}
+}
+
+// genLongWS: a long run without any marker (indentation, blank lines), longer than the reader's buffers.
+func genLongWS(t *rapid.T) string {
+	n := rapid.SampledFrom([]int{4090, 4094, 4095, 4096, 4097, 5000, 8191, 8192, 9000, 65535, 65536, 70000}).Draw(t, "wsn")
+	return strings.Repeat(rapid.SampledFrom([]string{" ", "\n", "\t \n"}).Draw(t, "wsu"), n)[:n]
 }
 
 func genWS(t *rapid.T) string {
@@ -204,20 +255,42 @@ var rec = ev.New(prop, "decorated-documents",
 	Require("comments", "escaped-quote", "marker-in-string", "eof-line-comment", "segmented")
 
 func TestDecorated(t *testing.T) {
-	ev.Rapid(t, "decorated-documents", 8000, 12000000, func(t *rapid.T) {
+	ev.Rapid(t, "decorated-documents", 4000, 8000000, func(t *rapid.T) {
 		c := Case{Val: genVal(t, 0), Mode: rapid.IntRange(0, 1).Draw(t, "mode")}
 		nt := len(jsonref.Tokens(c.Val, c.Mode))
-		for i := 0; i <= nt; i++ {
-			c.Plain = append(c.Plain, genWS(t))
-			if rapid.IntRange(0, 2).Draw(t, "deco") == 0 {
-				c.Gaps = append(c.Gaps, genGap(t, i == nt))
-			} else {
-				c.Gaps = append(c.Gaps, genWS(t))
+		if nt <= 200 {
+			for i := 0; i <= nt; i++ {
+				c.Plain = append(c.Plain, genWS(t))
+				if rapid.IntRange(0, 2).Draw(t, "deco") == 0 {
+					c.Gaps = append(c.Gaps, genGap(t, i == nt))
+				} else {
+					c.Gaps = append(c.Gaps, genWS(t))
+				}
 			}
+		} else {
+			// a long document: bare, with a few decorated places
+			c.Plain, c.Gaps = make([]string, nt+1), make([]string, nt+1)
+			for k := rapid.IntRange(0, 5).Draw(t, "ndeco"); k > 0; k-- {
+				i := rapid.IntRange(0, nt).Draw(t, "decoat")
+				c.Plain[i], c.Gaps[i] = genWS(t), genGap(t, i == nt)
+			}
+		}
+		if rapid.IntRange(0, 15).Draw(t, "longws") == 0 {
+			i := rapid.IntRange(0, nt).Draw(t, "longwsat")
+			c.Plain[i] = genLongWS(t) + c.Plain[i]
+			c.Gaps[i] = genLongWS(t) + c.Gaps[i]
 		}
 		c.SegKind = rapid.IntRange(0, xport.SegKinds-1).Draw(t, "segk")
 		if c.SegKind == 2 || c.SegKind == 3 {
 			c.Seg = rapid.SliceOfN(rapid.IntRange(1, 9), 1, 6).Draw(t, "seg")
+		}
+		if n := max(len(jsonref.Join(jsonref.Tokens(c.Val, c.Mode), c.Gaps)), len(jsonref.Join(jsonref.Tokens(c.Val, c.Mode), c.Plain))); n > 11000 && c.SegKind != 0 && c.SegKind != 4 {
+			// the reader rescans its pending text on every read: long documents are read in
+			// pieces of kilobytes, not bytes (cost, not correctness)
+			c.Seg = []int{4096, 1000 + c.Seg0(), 8192, 4095}
+			if c.SegKind == 1 {
+				c.SegKind = 2
+			}
 		}
 		var st stats
 		err := ev.Try(func() error {
@@ -242,7 +315,9 @@ func TestDecorated(t *testing.T) {
 		if c.SegKind != 0 {
 			cl = append(cl, "segmented")
 		}
-		rec.Case(ntv, ev.Hash(c), cl, func() any { return map[string]any{"decorated": clip(jsonref.Join(jsonref.Tokens(c.Val, c.Mode), c.Gaps))} })
+		rec.Case(ntv, ev.Hash(c), cl, func() any {
+			return map[string]any{"decorated": clip(jsonref.Join(jsonref.Tokens(c.Val, c.Mode), c.Gaps))}
+		})
 		if err != nil {
 			p := ev.Fail(prop, "decorated-documents", c, err)
 			t.Fatalf("%v (replay %s)", err, p)
